@@ -133,11 +133,11 @@ func TestC13BLSGroups(t *testing.T) {
 	if new(big.Int).SetBytes(bls.Order()).Cmp(a1.r) != 0 {
 		vlib.ReportDirect(t, "C13/bls12381.Order/mismatch", fmt.Sprintf("%x", bls.Order()), nil)
 	}
-	runAdapter(t, a1, 150, 1500)
-	runAdapter(t, a2, 100, 1000)
+	runAdapter(t, a1, 150, 600)
+	runAdapter(t, a2, 100, 400)
 	t.Run("bls-api", func(t *testing.T) {
 		sub := "grouplaw/bls12381/api"
-		vlib.Check(t, vlib.N(40, 400), func(t *rapid.T) {
+		vlib.Check(t, vlib.N(40, 160), func(t *rapid.T) {
 			a, _ := drawExp(t, a1, "a")
 			b, rel := drawRelated(t, a1, a, "q")
 			vlib.Eval(sub)
@@ -202,7 +202,7 @@ func TestC13Pairing(t *testing.T) {
 	}
 	t.Run("bilinear", func(t *testing.T) {
 		sub := "pairing/bilinear"
-		vlib.Check(t, vlib.N(60, 500), func(t *rapid.T) {
+		vlib.Check(t, vlib.N(60, 240), func(t *rapid.T) {
 			p, pcls := drawExp(t, a1, "p")
 			q, qcls := drawExp(t, a1, "q")
 			a, acls := drawScalar(t, &adapter{r: r, sbytes: 32}, "a")
@@ -251,7 +251,7 @@ func TestC13Pairing(t *testing.T) {
 	})
 	t.Run("products", func(t *testing.T) {
 		sub := "pairing/products"
-		vlib.Check(t, vlib.N(50, 400), func(t *rapid.T) {
+		vlib.Check(t, vlib.N(50, 200), func(t *rapid.T) {
 			n := rapid.SampledFrom([]int{0, 1, 2, 2, 3, 3, 4, 5}).Draw(t, "n")
 			var Ps []*bls.G1
 			var Qs []*bls.G2
